@@ -90,7 +90,11 @@ class MethodMap:
                             report_cycle(method, new_ancestors)
 
                         for old_ancestors, old_call_path in call_sights[method]:
-                            if not method.nonexclusive and not call_paths_exclusive(old_call_path, new_call_path):
+                            # a nonexclusive method runs once, however many times it is reached
+                            through_nonexclusive = any(
+                                ancestor.nonexclusive for ancestor in new_ancestors if ancestor in old_ancestors
+                            )
+                            if not through_nonexclusive and not call_paths_exclusive(old_call_path, new_call_path):
                                 report_double_call(root, method, old_ancestors, new_ancestors)
 
                         call_sights[method].append((new_ancestors, new_call_path))
